@@ -47,6 +47,7 @@ MonInit(S) ==
     placed    |-> [j \in JobsOf(S) |-> {}],
     usedIdx   |-> {},
     bjobs     |-> [b \in {} |-> <<>>],     \* batch number -> job list (from cfgbatch)
+    cfgseq    |-> <<>>,                    \* job lists of the batch files in the order they were written
     launches  |-> [j \in JobsOf(S) |-> 0],
     exited    |-> [j \in {} |-> 0],        \* job -> exit code decided by the environment
     intents   |-> {},                      \* rows some writer announced
@@ -83,6 +84,8 @@ Check(m, c, ante, ok) ==
 FaultFree(m) == ~m.faulty /\ ~m.nodefault
 Grp(S, j) == S.groups[S.grp[j]]
 AnyDry(S) == \E g \in DOMAIN S.groups : S.groups[g].dry
+\* the reference evaluation gives every job an outcome (no dependency cycle: cycles block forever, C12)
+Acyclic(S) == \A j \in JobsOf(S) : S.ref[j] # "missing"
 
 -----------------------------------------------------------------------------
 \* C07: admissibility of one batch (shared with Batching.tla through the same predicate shape)
@@ -138,6 +141,7 @@ OnCfgBatch(S, m, e) ==
       m3 == BatchChecks(S, m2, e)
   IN [m3 EXCEPT !.usedIdx = @ \cup {b},
                 !.bjobs = (b :> e.jobs) @@ @,
+                !.cfgseq = Append(@, e.jobs),
                 !.placed = [j \in JobsOf(S) |-> IF j \in ToSet(e.jobs) THEN @[j] \cup {b} ELSE @[j]]]
 
 OnSbatch(S, m, e) ==
@@ -260,7 +264,8 @@ OnStatus(S, m, e) ==
       \* C10
       a15 == Check(a14, "OneSubmitter", has /\ prev.sub # "" /\ e.sub # "", e.sub = prev.sub)
       \* C05
-      a16 == Check(a15, "CompleteHasAllResults", becameComplete /\ FaultFree(m) /\ ~AnyDry(S) /\ ~m.cancelSeen /\ ~e.canceled,
+      a16 == Check(a15, "CompleteHasAllResults",
+                   becameComplete /\ FaultFree(m) /\ ~AnyDry(S) /\ ~m.cancelSeen /\ ~e.canceled /\ Acyclic(S),
                    J \subseteq rows)
       a17 == Check(a16, "SummaryBeforeFlag", becameComplete, m.summaries >= 1)
       a18 == Check(a17, "CompleteOnce", becameComplete, m.completions = 0)
@@ -296,7 +301,7 @@ OnSummary(S, m, e) ==
       nS == Cardinality({k \in 1..Len(e.res) : Class(e.res[k]) = "successful"})
       nF == Cardinality({k \in 1..Len(e.res) : Class(e.res[k]) = "failed"})
       nC == Cardinality({k \in 1..Len(e.res) : Class(e.res[k]) = "canceled"})
-      allran == FaultFree(m) /\ ~m.cancelSeen /\ ~AnyDry(S)
+      allran == FaultFree(m) /\ ~m.cancelSeen /\ ~AnyDry(S) /\ Acyclic(S)
       full == nset = J /\ IsInj(names)
       a1 == Check(m,  "OneEntryPerJob", TRUE, IsInj(names) /\ nset \subseteq J)
       a2 == Check(a1, "MissingExact", TRUE, miss = J \ nset /\ IsInj(e.missing))
@@ -322,9 +327,11 @@ OnScancel(S, m, e) == [m EXCEPT !.scancelled = @ \cup {e.b}]
 
 OnEnd(S, m, e) ==
   LET \* C05 (bounded form of eventual completion on the real code)
-      m1 == Check(m, "CompletesAfterRecovery", S.mode = "hpc" /\ ~m.faulty /\ ~AnyDry(S) /\ m.hasSt, m.st.complete)
+      m1 == Check(m, "CompletesAfterRecovery", e.full /\ S.mode = "hpc" /\ ~m.faulty /\ ~AnyDry(S) /\ m.hasSt, m.st.complete)
       m2 == Check(m1, "ActiveBatchesCancelled", m.cancelSeen /\ m.cleanAtCancel, m.activeAtCancel \subseteq m.scancelled)
-  IN [m2 EXCEPT !.ended = TRUE]
+      \* C07: the dry run of a scenario writes the same first-round batches as the real run of the same scenario
+      m3 == Check(m2, "DryRunSame", S.hasfirst, m.cfgseq = S.firstround)
+  IN [m3 EXCEPT !.ended = TRUE]
 
 MonStep(S, m0, e) ==
   LET m == [m0 EXCEPT !.pos = @ + 1] IN
@@ -363,7 +370,7 @@ ClausesOf(c) ==
                      "NoSbatchAfterComplete", "CompletesAfterRecovery"}
     [] c = "C06" -> {"NodesBound", "ProcsBound"}
     [] c = "C07" -> {"BatchNonEmpty", "BatchJobsKnown", "OneGroup", "BatchSizeOrTime", "BlockedOnlyWithAllBlockers",
-                     "HandoverCoversUnfinished", "GroupOptions", "DryRunNoSbatch", "DryRunNoLaunch"}
+                     "HandoverCoversUnfinished", "GroupOptions", "DryRunNoSbatch", "DryRunNoLaunch", "DryRunSame"}
     [] c = "C08" -> {"ProcessedParses", "RowsIntact", "RowsNotDuplicated", "RowsNeverLost", "EachRowReportedOnce",
                      "ReportedRowsReal", "AllRowsReported"}
     [] c = "C09" -> {"StatusJobsMatchConfig", "CountersOrdered", "CompletedMatchesDone", "SubmittedMatchesStates", "DoneHasResult",
